@@ -956,6 +956,9 @@ impl<T: Payload> World<T> {
 
     /// ledger vs expectation, for every tag made so far
     fn audit(&self, what: &str) -> V {
+        if !T::DROPS {
+            return Ok(());
+        }
         let l = ledger();
         if l.bad_count() > 0 {
             return Err(format!("{}: ledger: {}", what, l.bad_desc()));
@@ -1211,7 +1214,7 @@ fn main() {
     let maxlen = kverif::arg_u64(&a, "maxlen", 60) as usize;
     let stop_after = kverif::arg_u64(&a, "stop-after", 5);
     let casefile = a.get("casefile").cloned();
-    let classes_arg = kverif::arg_str(&a, "classes", "P8,PB,L40,LS,S4,S1,Z0,ZA,L16").to_string();
+    let classes_arg = kverif::arg_str(&a, "classes", "P8,PB,L40,LS,S4,S1,Z0,ZA,L16,N8,N40,N4").to_string();
     let classes: Vec<&str> = classes_arg.split(',').collect();
     let caps_arg = kverif::arg_str(&a, "caps", "0,1,2,u").to_string();
     let caps: Vec<Option<usize>> = caps_arg.split(',').map(parse_cap).collect();
